@@ -12,7 +12,7 @@ import (
 )
 
 func init() {
-	register("C01", "Structural clauses behind sync convergence, decided on every path of the stat constructor and the disk writer: every exported field of types.Stat (set taken from go/types) is written by the constructor from its truthful lstat-based source; rewriteMetadata applies owner, mode (symlinks excepted), times and xattrs from the stat on every success path, owner before mode and times last; metadata is applied (checked) before an entry becomes visible by rename and after every creation; creation arguments come from the stat; the mtime is re-applied after asynchronous content; directory mtimes are recorded from the stat and fixed after all writers finished; merge mode never produces deletes; no write error is dropped or survived outside a reasoned table, nor is the error of a disk-writer helper that makes such writes (rewriteMetadata, chtimes, processChange, the special-file and rename helpers) by its caller. The diff loop cannot end while either walk is still open. The os.FileInfo view the writer dispatches on (StatInfo) projects the stat's own fields; xattrs listed are xattrs recorded (shared with C09). Does not decide equality of the two trees, file bytes or hard-link groups at run time.", runC01)
+	register("C01", "Structural clauses behind sync convergence, decided on every path of the stat constructor and the disk writer: every exported field of types.Stat (set taken from go/types) is written by the constructor from its truthful lstat-based source; rewriteMetadata applies owner, mode (symlinks excepted), times and xattrs from the stat on every success path, owner before mode and times last; metadata is applied (checked) before an entry becomes visible by rename and after every creation; creation arguments come from the stat; the mtime is re-applied after asynchronous content; directory mtimes are recorded from the stat and fixed after all writers finished; merge mode never produces deletes; no write error is dropped or survived outside a reasoned table, nor is the error of a disk-writer helper that makes such writes (rewriteMetadata, chtimes, processChange, the special-file and rename helpers) by its caller. The diff loop cannot end while either walk is still open. The os.FileInfo view the writer dispatches on (StatInfo) projects the stat's own fields; xattrs listed are xattrs recorded (shared with C09). The file ids both ends key their tables by are the zero-based positions in the STAT sequence (counter from 0, one increment per announced entry, registration with the pre-increment value; shared with C06/C07): two ends that agree with each other on any other numbering hand a conforming peer a neighbouring file's bytes. Does not decide equality of the two trees, file bytes or hard-link groups at run time.", runC01)
 }
 
 func runC01(c *Ctx) {
@@ -49,6 +49,9 @@ func runC01(c *Ctx) {
 		// xattrs: what listxattr names is what the stat carries (shared with C09)
 		r09_11(c, "R01.17")
 	}
+	// the bytes requested are the bytes of the entry they are written to: ids
+	// are zero-based STAT positions on both ends (shared with C06/C07)
+	idNumbering(c, "R01.18", "R01.19", "R01.20")
 }
 
 // statSources: required provenance of each Stat field in the constructor.
